@@ -34,8 +34,10 @@ KEYSTRING = f"{LEADKEYCHAR}({KEYCHAR})*"
 
 DESCR = f"{KEYSTRING}"
 QDESCR = f"{SQUOTE}{DESCR}{SQUOTE}"
-QDESCRLIST = f"({QDESCR}({SP}{QDESCR})*)?"
-QDESCRS = f"({QDESCR}|{LPAREN}{WSP}{QDESCRLIST}{WSP}{RPAREN})"
+# The trailing WSP is part of the optional list so that the spaces of an empty
+# list '(   )' can only be matched in one way.
+QDESCRLIST = f"({QDESCR}({SP}{QDESCR})*{WSP})?"
+QDESCRS = f"({QDESCR}|{LPAREN}{WSP}{QDESCRLIST}{RPAREN})"
 
 OID = f"({DESCR}|{NUMERICOID})"
 OIDLIST = f"({OID}({WSP}{DOLLAR}{WSP}{OID})*)"
@@ -59,8 +61,8 @@ QS = f"{ESC}5[Cc]"
 QUTF8 = r"[^'\\]"
 DSTRING = f"({QS}|{QQ}|{QUTF8})+"
 QDSTRING = f"{SQUOTE}{DSTRING}{SQUOTE}"
-QDSTRINGLIST = f"({QDSTRING}({SP}{QDSTRING})*)?"
-QDSTRINGS = f"({QDSTRING}|{LPAREN}{WSP}{QDSTRINGLIST}{WSP}{RPAREN})"
+QDSTRINGLIST = f"({QDSTRING}({SP}{QDSTRING})*{WSP})?"
+QDSTRINGS = f"({QDSTRING}|{LPAREN}{WSP}{QDSTRINGLIST}{RPAREN})"
 
 
 XSTRING = f"[xX]{HYPHEN}([a-zA-Z]|{HYPHEN}|{USCORE})+"
